@@ -93,10 +93,11 @@ P('C17',
   technique='Kani lemmas over the real table lookups, symbolic indices')
 P('C05',
   assumptions=[ARITH, A2, A7, 'history oracle above the leaf; the leaf (counting on the linked list) is BOUNDED to lists of length <= 4',
-               'the six-line induction that composes the hypotheses h1-h5 (DESIGN section 7, C05) is a paper argument (A2); each hypothesis is a discharged obligation on the real code'],
-  level_text='The property is a lemma over contracts: (h1) the state hash is H(board, side, step) and the turn-start hash is kept/renewed (C08 obligations), (h2) a turn-ending action is offered only if the result hashes unlike the turn start and its other-side hash has not occurred twice (C06 obligations, direction needed here holds without any collision assumption: equal positions have equal hashes), (h3) the history is appended at every turn end and reset exactly at captures (transition obligations), (h4) material never increases and a capture removes exactly one piece (C02/C10), (h5) "occurred twice" is counting on the real list (bounded leaf).',
-  level_note='proof + bounded leaf: hash_history_contains_hash_twice and the List API are checked for lists of length <= 4 only (labelled bounded in the evidence, not counted as proved). The composition of h1-h5 is by the argument in DESIGN.md, not machine-checked.',
-  technique=KANI + '; Verus for the hash folds; bounded Kani harnesses for the linked-list leaf')
+               'the correspondence between each `requires` of the Verus lemma lemma_turn (verus/history.spec) and the Kani/Verus obligation that proves it on the real code is the table in DESIGN 12.7 (by inspection, not machine-checked)',
+               'positions parsed from text start with history == [hash] by reading src/display.rs (FromStr for GameState is not under contract)'],
+  level_text='The property is a lemma over contracts, machine-checked at spec level by Verus (verus/history.spec: lemma_turn + lemma_init, ghost sequence of turn-start positions, invariant J): from (h1) the hash is a function of board, side, step (C08 obligations + Verus units pbv/fpb), (h2) a turn-ending action of a capture-free turn is offered only if the result hashes unlike the turn start and its hash does not already occur twice in the history (C06 obligations; no collision assumption needed in this direction), (h3) the history is appended at every turn end and reset exactly at captures (transition obligations), (h4) material never increases and strictly decreases at a capture (C02/C10), (h5) "occurs twice" is counting on the real list (bounded leaf) it follows that the board after a completed turn differs from the board at its start, that board+side occurred at most once before at a turn start, and that the invariant holds again.',
+  level_note='proof + bounded leaf: hash_history_contains_hash_twice and the List API are checked for lists of length <= 4 only (labelled bounded in the evidence, not counted as proved).',
+  technique='Verus spec-level induction lemma over the contracts; ' + KANI + ' for every hypothesis; bounded Kani harnesses for the linked-list leaf')
 P('C10',
   assumptions=[ARITH, A2, 'A5 core::fmt writes what it is given: the line/column layout of the printed diagram is not decided; only the per-cell codec is'],
   level_text='board_wf (word form) is proved equivalent to its per-square form and is pre/postcondition of every mutator (take_action, place); accessors bits_for_piece / player_piece_mask / bits_by_piece_type / piece_type_at_square / piece_type_at_bit equal their definitions over the abstract view at(); Square <-> index <-> bit <-> file/rank for all 64 squares; trap-cleanliness after every step; material limits from the setup invariant plus material-never-increases; diagram letters round-trip.',
